@@ -37,6 +37,7 @@ def cdS : Stmt → Nat
   | .exprS _ e => cdX e + 1
   | .whileS _ c body => max (cdE c) (cdBS body) + 1
   | .loopS _ body => cdBS body + 1
+  | .forS _ _ _ (.range _ a b _) (.mk _ _ stmts _) => max (max (cdE a) (cdE b) + 1) (cdSs stmts + 1) + 1
   | .ret _ (some e) => cdE e + 1
   | _ => 1
 /-- Expression statements: assignment and `if` over statement blocks. -/
